@@ -3,3 +3,107 @@ LEVEL_TEXT = ("Deductive: every comparison method of ExcelComparator and evaluat
               "against the rank order of the statement for all scalar operands; trichotomy, symmetry, class order and transitivity "
               "are lemmas over the spec order.  Dates enter through the serial (C13 contract of serialize_date).")
 TRUSTED = ['CPython comparison semantics on int/float/str/bool as encoded in pyvc.ops', 'z3 5.1 (strings: str.<, reals)']
+
+
+def order_case(values, i, j):
+    """ the six operators on values[i], values[j] (bound to variables) through Parser.parse; '' or what is wrong """
+    from pyvc import e2e
+    p = e2e.new_parser()
+    p.set_variable('va', values[i])
+    p.set_variable('vb', values[j])
+    r = {}
+    for op in ('<', '=', '>', '<=', '>=', '<>'):
+        a = p.parse('va%svb' % op)
+        b = p.parse('vb%sva' % op)
+        if a['error'] is not None or b['error'] is not None or not isinstance(a['result'], bool) or not isinstance(b['result'], bool):
+            return 'va%svb -> %r, vb%sva -> %r' % (op, a, op, b)
+        r[op] = a['result']
+        r['rev' + op] = b['result']
+    if [r['<'], r['='], r['>']].count(True) != 1:
+        return 'not exactly one of <, =, > : %r' % ({k: r[k] for k in ('<', '=', '>')},)
+    if r['<='] != (r['<'] or r['=']) or r['>='] != (r['>'] or r['=']) or r['<>'] != (not r['=']):
+        return '<=, >=, <> are not the derived relations: %r' % (r,)
+    if r['<'] != r['rev>'] or r['>'] != r['rev<'] or r['='] != r['rev=']:
+        return 'a<b iff b>a fails: %r' % (r,)
+    return ''
+
+
+def rank(v):
+    import datetime
+    if isinstance(v, bool):
+        return 2
+    if isinstance(v, str):
+        return 1
+    if isinstance(v, (int, float, datetime.datetime)):
+        return 0
+    return None
+
+
+def extra(report, env):
+    """ the order of the statement end to end, with near-ties: numbers that differ in the last bits, dates a second apart, text that spells
+        dates or numbers, every class against every class, transitivity on seeded triples """
+    import datetime
+    import itertools
+    import random
+    from pyvc import e2e, native
+    from props.common import bounded
+    rng = random.Random(env['seed'])
+    ser = native.real_function('hotxlfp.formulas.utils:serialize_date')
+    d0 = datetime.datetime(2019, 11, 20)
+    values = [0, 1, -1, 0.3, 0.1 + 0.2, 1 / 3, 2 / 3, 1 - 2 / 3, 1e16, 1e16 + 2, 43789, 43789.0, 43789.00001, 50000, 1e-300, -1e-300,
+              d0, d0 + datetime.timedelta(seconds=1), d0 + datetime.timedelta(milliseconds=2), datetime.datetime(1900, 3, 1), datetime.datetime(9999, 12, 31),
+              '', 'a', 'A', 'b', 'ab', '2019-01-01', '2019-11-20', '50000', '12', 'TRUE', 'z', 'é',
+              True, False, None]
+    cases = 0
+    fails = []
+
+    def key(v):
+        # the order of the statement on non-blank values: class rank, then numeric value (dates by serial) / text (case-insensitively, as the
+        # comparison of the library is documented) / FALSE < TRUE
+        if isinstance(v, bool):
+            return (2, int(v))
+        if isinstance(v, str):
+            return (1, v)
+        if isinstance(v, datetime.datetime):
+            return (0, ser(v))
+        return (0, v)
+    n = len(values)
+    lt = {}
+    for i in range(n):
+        for j in range(n):
+            cases += 1
+            bad = order_case(values, i, j)
+            if bad and len(fails) < 5:
+                fails.append({'formula': 'va ? vb', 'order_case': [i, j], 'detail': 'va = %r, vb = %r: %s' % (values[i], values[j], bad)})
+                continue
+            a, b = values[i], values[j]
+            if a is None or b is None or bad:
+                continue
+            p = e2e.new_parser()
+            p.set_variable('va', a)
+            p.set_variable('vb', b)
+            got = p.parse('va<vb')['result']
+            lt[(i, j)] = got
+            ra, rb = rank(a), rank(b)
+            want = None
+            if ra != rb:
+                want = ra < rb                  # every number or date < every text < every logical
+            elif ra in (0, 2):
+                want = key(a) < key(b)          # numbers and dates numerically (dates by serial), FALSE < TRUE
+            if want is not None and got is not want and len(fails) < 5:
+                fails.append({'formula': 'va<vb', 'order_case': [i, j], 'detail': 'va = %r, vb = %r: va<vb is %r, the order of the statement says %r' % (a, b, got, want)})
+    # transitivity on non-blank values
+    idx = [i for i in range(n) if values[i] is not None]
+    for _ in range(3000 if env['tier'] == 'quick' else 40000):
+        i, j, k = rng.choice(idx), rng.choice(idx), rng.choice(idx)
+        cases += 1
+        if lt.get((i, j)) and lt.get((j, k)) and not lt.get((i, k)) and len(fails) < 5:
+            fails.append({'formula': 'va<vb', 'order_case': [i, k], 'detail': '%r < %r and %r < %r but not %r < %r' % (values[i], values[j], values[j], values[k], values[i], values[k])})
+    bounded(report, 'C07.order', 'all ordered pairs of %d values (numbers differing in the last bits, dates a second / 2 ms apart and at both ends of the range, text '
+            'spelling dates and numbers, logicals, blank): exactly one of < = >, derived relations, a<b iff b>a, the class order and the numeric order of '
+            'the statement; transitivity on seeded triples' % n, cases, fails)
+
+
+def replay(rp):
+    print(rp.get('detail'))
+    return 1
